@@ -289,6 +289,19 @@ static void run_history(const char *dir, char **lines, long *lnos, long nlines)
                 printf("\n");
             }
         }
+        else if (!strcmp(op, "layout")) {
+            /* R-vs-M observable for the contiguous model: end-of-file offset and every descriptor */
+            sscanf(line, "%*s %ld", &a);
+            filerec_t *frec = HAatom_object(fid[a]);
+            if (frec == NULL) printf(" fail\n");
+            else {
+                uint16 t = 0, r = 0; int32 off = 0, len = 0;
+                printf(" ok %d", (int)frec->f_end_off);
+                while (Hfind(fid[a], DFTAG_WILDCARD, DFREF_WILDCARD, &t, &r, &off, &len, DF_FORWARD) == SUCCEED)
+                    printf(" %d:%d:%d:%d", (int)t, (int)r, (int)off, (int)len);
+                printf("\n");
+            }
+        }
         else if (!strcmp(op, "isspecial")) {
             /* diagnostic only: is (tag,ref) stored as a special element right now? */
             sscanf(line, "%*s %ld %ld %ld", &a, &b, &c);
